@@ -535,7 +535,7 @@ def check(rep: Report, tier: str, seed: int) -> None:
         rep.extra["witness_D21_C28"] = f"{type(e).__name__} in {classify_exc(e) or 'unclassified'}"
         rep.fail(f"real mps back-end raised {type(e).__name__}: {e}", ic.ser_case(WITNESS_MPS), klass=classify_exc(e))
     schedule_tie(rep, rng, 6 if tier == "quick" else 200)
-    if rep.broken and not rep.failing:
+    if rep.broken and not rep.unknown_failing():
         search(rep, seed, 60 if tier == "quick" else 600)
 
 
